@@ -109,11 +109,45 @@ def run(tier, seed, model_ok):
                     vio.append({'what': 'instruction the device has does not assemble to the same code as with no device', 'source': src, 'impl': a[:160], 'expected_code': E.code_of(b), 'key': dev[0] + ':' + f.mn})
         else:
             vio.append({'what': 'oracle could not judge (harness bug)', 'source': src, 'impl': a[:80], 'expected': str(g), 'key': 'oracle'})
+    # second stream — the gate in context: (a) an instruction the device lacks stays refused when an ALLOWED form of
+    # the same mnemonic was assembled just before it (and after it); (b) the `.device` line may come after the
+    # first instruction: the gate is that of the device selected for the build, wherever it is selected
+    verdict = {}
+    for i, (dev, f) in enumerate(meta):
+        if dev: verdict[(dev[0], f.src)] = spec.get(str(i))
+    ctx, cmeta = [], []
+    for dname, opts, avr8l in devs:
+        den = [f for f in fs if verdict.get((dname, f.src)) == 'DENY']
+        alw = [f for f in fs if verdict.get((dname, f.src)) == 'ALLOW']
+        for f in den:
+            mates = [g for g in alw if g.mn == f.mn]
+            for g in mates[:2]:
+                ctx.append('.device %s\n%s\n%s' % (dname, g.src, f.src)); cmeta.append(('allowed form of the same mnemonic first', 'ERR'))
+                ctx.append('.device %s\n%s\n%s\n%s' % (dname, g.src, g.src, f.src)); cmeta.append(('allowed form of the same mnemonic twice first', 'ERR'))
+        for f in den[:: max(1, len(den) // 4)][:4]:
+            ctx.append(' nop\n.device %s\n%s' % (dname, f.src)); cmeta.append(('.device after the first instruction', 'ERR'))
+            ctx.append(' nop\n%s\n.device %s' % (f.src, dname)); cmeta.append(('.device at the end', 'ERR'))
+        for g in [x for x in alw if not (x.mn.startswith('br') and x.mn != 'break') and x.mn not in ('rjmp', 'rcall')][:: max(1, len(alw) // 4)][:3]:
+            if g.mn in ('lds', 'sts', 'rjmp', 'rcall', 'brbs', 'brbc') or g.mn.startswith('br') and g.mn != 'break': continue   # position-dependent words
+            ctx.append(' nop\n.device %s\n%s' % (dname, g.src)); cmeta.append(('.device after the first instruction', '0000' + E.code_of(base[g.src])))
+    ctrip = [('c%d' % i, 'B', vlib.hx(t)) for i, t in enumerate(ctx)]
+    cimpl = vlib.run_impl(ctrip)
+    cmodel = vlib.run_model(ctrip, vlib.cwd_prelude()) if model_ok else {}
+    for i, t in enumerate(ctx):
+        a = cimpl.get('c%d' % i, 'MISSING')
+        if model_ok and a != cmodel.get('c%d' % i, 'MISSING'):
+            dis.append({'source': t, 'impl': a[:200], 'model': cmodel.get('c%d' % i, 'MISSING')[:200]})
+        what, want = cmeta[i]
+        if want == 'ERR':
+            if not a.startswith('ERR'):
+                vio.append({'what': 'instruction the device lacks was assembled (%s)' % what, 'source': t, 'impl': a[:160], 'expected': 'error', 'key': 'context'})
+        elif not a.startswith('OK') or E.code_of(a) != want:
+            vio.append({'what': 'instruction the device has does not assemble as with no device (%s)' % what, 'source': t, 'impl': a[:160], 'expected_code': want, 'key': 'context'})
     return {
-        'evaluations': len(trip), 'distinct_nontrivial': len({t[2] for t in trip}),
-        'rule': 'every device of the table (extracted by execution) x one legal representative of every mnemonic and addressing form (all 9 pointer forms and Y/Z displacement for ld/ldd/st/std, the three lpm/elpm forms, lds/sts at a reduced-core address and at a classic one), plus the same forms with no device; exhaustive over that matrix; distinct = distinct programs',
+        'evaluations': len(trip) + len(ctx), 'distinct_nontrivial': len({t[2] for t in trip}) + len(set(ctx)),
+        'rule': 'every device of the table (extracted by execution) x one legal representative of every mnemonic and addressing form (all 9 pointer forms and Y/Z displacement for ld/ldd/st/std, the three lpm/elpm forms, lds/sts at a reduced-core address and at a classic one), plus the same forms with no device; exhaustive over that matrix; plus the gate in context: every denied cell after one and two allowed forms of the same mnemonic, and denied/allowed cells with the .device line after the first instruction or at the end of the program; distinct = distinct programs',
         'samples': [vlib.unhx(trip[0][2]).decode(), vlib.unhx(trip[len(trip) // 2][2]).decode()],
         'exhaustive': True,
-        'distribution': {'devices': len(devs), 'forms': len(fs), 'denied_cells': denied, 'allowed_cells': allowed},
+        'distribution': {'devices': len(devs), 'forms': len(fs), 'denied_cells': denied, 'allowed_cells': allowed, 'context_programs': len(ctx)},
         'disagreements': dis, 'violations': vio,
     }
